@@ -217,6 +217,24 @@ def run_shard(ctx):
         ts = typify(sheets, rng)
         compare_all(ctx, form, ts, sig, "typed", ["xlsx", "xls"], rng)
         reader_postconditions(ctx, ts, form, "typed")
+        # (2b) multi-line cells: spreadsheets and quoted CSV fields carry embedded line breaks (markdown cannot)
+        if i % 3 == 0:
+            ml = {}
+            nml = 0
+            for name, (hdrs, rows) in sheets.items():
+                nr = []
+                for r in rows:
+                    rr = list(r)
+                    for ci, (h, c) in enumerate(zip(hdrs, r)):
+                        if isinstance(c, str) and h and str(h).split(":")[0] in ("label", "hint", "constraint_message", "guidance_hint", "form_title") and len(c) > 3 and rng.random() < 0.4 and "${" not in c:
+                            k = rng.randint(1, len(c) - 2)
+                            rr[ci] = c[:k] + rng.choice(["\n", "\n\n", ",\n", "\n \"q\" "]) + c[k:]
+                            nml += 1
+                    nr.append(rr)
+                ml[name] = (hdrs, nr)
+            if nml:
+                ctx.ctr("multiline_cell_cases")
+                compare_all(ctx, form, ml, sig, "multiline", ["xlsx", "xls", "csv"], rng)
         # (3) empty runs
         k = rng.choice([1, 2, 59, 60, 60])
         sh = rng.choice([s for s in ("survey", "choices") if s in sheets and len(sheets[s][1]) > 1])
